@@ -115,6 +115,8 @@ type Exec struct {
 	resets   []func()
 	Data     map[string]interface{}
 	TraceLog []string
+	abortOps int
+	KeyTag   string // prepended to the key of any violation of this execution (scenario context that identifies a finding)
 
 	objs map[interface{}]*objState
 }
@@ -279,6 +281,13 @@ func (x *Exec) fail(verdict, detail string) {
 	}
 	x.aborting = true
 	runtime.Goexit()
+}
+
+// Tag sets the context tag that becomes part of the identity of any violation found in this execution.
+func Tag(s string) {
+	if cur != nil {
+		cur.KeyTag = s
+	}
 }
 
 // Closed bookkeeping for channels (keyed by channel pointer).
@@ -531,6 +540,7 @@ func Point(kind Kind, obj interface{}, en func() bool) {
 		return
 	}
 	if x.aborting {
+		x.abortSpin()
 		return
 	}
 	t := x.cur
@@ -557,9 +567,20 @@ func Block(kind Kind, obj interface{}, en func() bool) {
 		if en != nil && !en() {
 			runtime.Goexit()
 		}
+		x.abortSpin()
 		return
 	}
 	Point(kind, obj, en)
+}
+
+// abortSpin bounds the work a thread may do while it is being torn down: shim operations are
+// no-ops then, so a retry loop that relies on them to make progress would never end.
+func (x *Exec) abortSpin() {
+	x.abortOps++
+	if x.abortOps > 3000 {
+		x.abortOps = 0
+		runtime.Goexit()
+	}
 }
 
 // Yield is an explicit scheduling point.
@@ -642,6 +663,7 @@ func Run(prefix []int, horizon int, body func()) *Exec {
 		if t.done {
 			continue
 		}
+		x.abortOps = 0
 		x.give(t.ID)
 		x.waitController()
 	}
